@@ -47,8 +47,9 @@ def regenerate_facts():
 
 
 HDR = HEADER.replace("Corr.Check.", "Corr.Check Model.Schema Corr.SchemaCheck.")
-NAMES = ["A", "Tree", "type", "", "né", "a b", "x/y"]
-REFS = ["#/components/schemas/", "#/$defs/", "", "http://x/y#/"]
+NAMES = ["A", "Tree", "type", "", "né", "a b", "x/y", "a%20b", "%s", "{0}", "100%"]
+REFS = ["#/components/schemas/", "#/$defs/", "", "http://x/y#/", "#/components/schemas/My%20Api/", "#/$defs/100%25/", "#/$defs/50%/",
+        "#/%s/", "#/%(x)s/", "#/{}/", "#/{0}/{name}/", "#/%%/"]
 JSON_TYPES = (str, int, float, bool, type(None))
 
 
@@ -568,8 +569,22 @@ def inner_schema(c: SCase) -> Any:
 
 
 # ------------------------------------------------------------------ run
+def named_recursive_cases() -> List[SCase]:
+    """Every schema name x every ref location (percent-encoded fragments, braces, format directives included) around
+    recurrent and non-recurrent self-references: the reference is ref_location + name, character for character."""
+    _INT = ("Scalar", ("KInt",), None, [], [], [])
+    out: List[SCase] = []
+    for nm in NAMES:
+        for ref in REFS:
+            for rec_ in (True, False):
+                lz = ("LazyV", N(0), rec_)
+                for t in (("ListV", lz, [], [], None), ("OptionalV", ("NoneV", None), ("DictAnyV", [P(G.S("next"), ("KeyNotRequired", lz)), P(G.S("v"), _INT)], None, None, False))):
+                    out.append(SCase(t, (nm, ref), False, "named-recursive"))
+    return out
+
+
 def gen_cases(rng: random.Random, n: int) -> List[SCase]:
-    cases: List[SCase] = []
+    cases: List[SCase] = named_recursive_cases()
     for i in range(n):
         named = None
         if rng.random() < 0.45:
